@@ -59,23 +59,26 @@ def cases(tier, seed):
     else:
         medium, large = sr.menu('medium'), sr.menu('large')
         n = 0
-        for cfg in small:
-            for v in VARIANTS:
-                out.append({'seed': seed, 'idx': n, 'hashseed': n % 7, 'mode': 'exhaustive', 'menu': 'small', 'cfg': list(cfg), 'variant': v})
-                n += 1
-        for cfg in medium:
-            for v in VARIANTS:
-                out.append({'seed': seed, 'idx': n, 'hashseed': n % 7, 'mode': 'exhaustive', 'menu': 'medium', 'cfg': list(cfg), 'variant': v})
-                n += 1
-        for rep in range(8):
+        for rep in range(2):
+            for cfg in small:
+                for v in VARIANTS:
+                    out.append({'seed': seed, 'idx': n, 'hashseed': n % 7, 'mode': 'exhaustive', 'menu': 'small', 'cfg': list(cfg), 'variant': v})
+                    n += 1
+        for rep in range(3):
+            for cfg in medium:
+                for v in VARIANTS:
+                    out.append({'seed': seed, 'idx': n, 'hashseed': n % 7, 'mode': 'exhaustive', 'menu': 'medium', 'cfg': list(cfg), 'variant': v})
+                    n += 1
+        for rep in range(24):
             for cfg in large:
                 for v in VARIANTS:
                     out.append({'seed': seed, 'idx': n, 'hashseed': n % 7, 'mode': 'history', 'menu': 'large', 'cfg': list(cfg), 'variant': v})
                     n += 1
-        for cfg in small + medium:
-            out.append({'seed': seed, 'idx': n, 'hashseed': n % 7, 'mode': 'history', 'menu': 'small' if cfg in small else 'medium',
-                        'cfg': list(cfg), 'variant': VARIANTS[n % 4]})
-            n += 1
+        for rep in range(4):
+            for cfg in small + medium:
+                out.append({'seed': seed, 'idx': n, 'hashseed': n % 7, 'mode': 'history', 'menu': 'small' if cfg in small else 'medium',
+                            'cfg': list(cfg), 'variant': VARIANTS[(n + rep) % 4]})
+                n += 1
     return out
 
 
